@@ -509,7 +509,7 @@ mutant('C14', '0kl sign from k only', FSBF, "s = np.sign(hkl[1] * hkl[2])", "s =
 benign('C14', 'out-of-plane search starts at 180 (both v and -v are candidates, the minimum angle is the same)', FSBF, "c_angle = 90", "c_angle = 180")
 mutant('C14', 'first in-plane vector: longest instead of shortest', FSBF, "            if mag < a_mag:\n                a_uvw = uvw", "            if mag > a_mag or a_uvw is None:\n                a_uvw = uvw", 'SEARCH')
 mutant('C14', 'out-of-plane vector: largest angle', FSBF, "        elif angle < c_angle:", "        elif angle > c_angle or c_uvw is None:", 'SEARCH')
-benign('C14', 'in-plane test via explicit tolerance', FSBF, "        if np.isclose(np.dot(cart, planenormal), 0.0):\n            if mag < a_mag:", "        if np.isclose(cart.dot(planenormal), 0.0):\n            if mag < a_mag:")
+benign('C14', 'in-plane test via explicit tolerance', FSBF, "        if np.isclose(np.dot(cart, unitnormal) / mag, 0.0):\n            if mag < a_mag:", "        if np.isclose(cart.dot(unitnormal) / mag, 0.0):\n            if mag < a_mag:")
 mutant('C14', 'handedness test dropped', FSBF, "if np.dot(np.cross(a_cart, cart), planenormal) > 0:", "if True:", 'SEARCH')
 mutant('C14', 'cutboxvector b rows not cyclic', FSBF, "uvws = np.array([b_uvw, c_uvw, a_uvw])", "uvws = np.array([a_uvw, c_uvw, b_uvw])", 'SEARCH')
 mutant('C14', 'cut a refusal weakened', FSF, "if rcell.box.bvect[0] != 0.0 or rcell.box.cvect[0] != 0.0:", "if rcell.box.bvect[0] != 0.0 and rcell.box.cvect[0] != 0.0:", 'FREE-SURFACE')
@@ -659,3 +659,8 @@ mutant('C19', 'regress-652d0a9 timing tables attached by their own count', 'atom
 mutant('C19', 'regress-89eee59 a run without rows is merged like any other', 'atomman/lammps/Log.py', "            if thermo is None or len(thermo) == 0:\n                continue", "            if thermo is None:\n                continue", 'FLATTEN')
 mutant('C19', 'regress-89eee59 first compares with an empty table', 'atomman/lammps/Log.py', "                if len(merged_df) > 0:\n                    thermo = thermo[thermo.Step > merged_df.Step.max()]\n", "                thermo = thermo[thermo.Step > merged_df.Step.max()]\n", 'FLATTEN')
 benign('C19', 'runs without rows skipped by their shape', 'atomman/lammps/Log.py', "            if thermo is None or len(thermo) == 0:\n                continue", "            if thermo is None:\n                continue\n            if thermo.shape[0] == 0:\n                continue")
+
+# regressions of the fix: commit 91e0b7b (free_surface_basis searches independent of the unit of length)
+mutant('C14', 'regress-91e0b7b in-plane test on the unnormalised dot product (first search)', 'atomman/defect/free_surface_basis.py', "        if np.isclose(np.dot(cart, unitnormal) / mag, 0.0):", "        if np.isclose(np.dot(cart, planenormal), 0.0):", 'SEARCH')
+mutant('C14', 'regress-91e0b7b in-plane test on the unnormalised dot product (second search)', 'atomman/defect/free_surface_basis.py', "        if np.isclose(np.dot(cart, unitnormal) / np.linalg.norm(cart), 0.0) and", "        if np.isclose(np.dot(cart, planenormal), 0.0) and", 'SEARCH')
+benign('C14', 'in-plane test through the cosine', 'atomman/defect/free_surface_basis.py', "        if np.isclose(np.dot(cart, unitnormal) / mag, 0.0):", "        cosine = np.dot(cart / mag, unitnormal)\n        if np.isclose(cosine, 0.0):")
